@@ -36,7 +36,7 @@ Definition is_modelled (s : string) : bool := negb (existsb (String.eqb s) unmod
 (* (with_alias, subquery, with_namespace forwarded) each clause renderer passes to its items, and its separator *)
 Definition model_item_flags : list (string * (bool * bool * bool) * list string) :=
   [("_with_sql", (false, false, true), [","]); ("_select_sql", (true, true, true), [","]);
-   ("_from_sql", (true, true, false), [","]); ("_where_sql", (false, true, true), []);
+   ("_from_sql", (true, true, true), [","]); ("_where_sql", (false, true, true), []);
    ("_group_sql", (false, false, true), [","]); ("_having_sql", (false, false, true), []);
    ("_orderby_sql", (false, false, true), [","]); ("Join.get_sql", (true, true, true), []);
    ("JoinOn.get_sql", (false, true, true), []); ("JoinUsing.get_sql", (false, false, true), [","])].
@@ -479,6 +479,9 @@ Definition page_stoks (l o : option Z) : list stok :=
   | Some n, None => [SK KLimit; SNum n]
   | None, _ => [] end.
 
+Definition from_stoks (fr : list string) : list stok :=
+  match fr with [] => [] | _ => SK KFrom :: commas (map (fun t => [SSrc t]) fr) end.
+
 Definition flat_toks (fl : flat) : option (list stok) :=
   let w := f_wns fl in
   match all_some (map (item_toks (sq_ci w true true)) (f_items fl)),
@@ -490,7 +493,7 @@ Definition flat_toks (fl : flat) : option (list stok) :=
   with
   | Some its, Some js, Some wh, Some gs, Some hv, Some os =>
       Some (SK KSel :: (if f_distinct fl then [SK KDistinct] else []) ++ commas its
-            ++ (match f_from fl with [] => [] | fr => SK KFrom :: commas (map (fun t => [SSrc t]) fr) end)
+            ++ from_stoks (f_from fl)
             ++ List.concat js ++ wh
             ++ (match gs with [] => [] | _ => SK KGroupBy :: commas gs end)
             ++ hv
